@@ -83,7 +83,7 @@ type Define struct {
 	Uninterpreted bool
 }
 
-var headRe = regexp.MustCompile(`^(func|interface|extern|fparam|define|declare|lemma|inline|constglobal|guard|refcount|reflink|reftable|ownfield|ghostvar)\s+(.*)$`)
+var headRe = regexp.MustCompile(`^(func|interface|extern|fparam|functype|define|declare|lemma|inline|constglobal|guard|refcount|reflink|reftable|ownfield|ghostvar|axiom)\s+(.*)$`)
 var clauseRe = regexp.MustCompile(`^(requires|ensures|bridge_ensures|panic_ensures|invariant|decreases|lemma)(\[[A-Za-z0-9, ]*\])?\s*(@[A-Za-z0-9_.\-]+)?\s+(.*)$`)
 
 // ParseContracts reads //@ lines from text (comment-only Go or .spec file).
@@ -128,6 +128,10 @@ func ParseContracts(file, text, pkg string, out *ContractSet) error {
 					out.Contracts[contractKey(kind, pkg, name)] = k
 					out.Order = append(out.Order, contractKey(kind, pkg, name))
 				}
+				cur = nil
+			case "axiom":
+				// axiom <expr> : assumed in every state (facts about library globals)
+				out.Axioms = append(out.Axioms, &Clause{Text: strings.TrimSpace(m[2]), Where: where})
 				cur = nil
 			case "ghostvar":
 				// ghostvar $name type
@@ -174,7 +178,7 @@ func ParseContracts(file, text, pkg string, out *ContractSet) error {
 				}
 				out.ConstGlobals = append(out.ConstGlobals, &ConstGlobal{Pkg: pkg, Name: strings.TrimSpace(parts[0]), Value: val, Props: props, Where: where})
 				cur = nil
-			case "func", "interface", "extern", "fparam":
+			case "func", "interface", "extern", "fparam", "functype":
 				name := strings.TrimSpace(m[2])
 				cur = &Contract{Kind: m[1], Name: name, Pkg: pkg, Loops: map[int]*LoopSpec{}, Where: where}
 				if m[1] != "func" {
@@ -182,6 +186,9 @@ func ParseContracts(file, text, pkg string, out *ContractSet) error {
 				}
 				if m[1] == "fparam" {
 					cur.Kind = "fparam"
+				}
+				if m[1] == "functype" {
+					cur.Kind = "functype"
 				}
 				key := contractKey(m[1], pkg, name)
 				if _, dup := out.Contracts[key]; dup {
@@ -388,6 +395,8 @@ func contractKey(kind, pkg, name string) string {
 		return "lemma:" + pkg + "." + name
 	case "fparam":
 		return "fparam:" + pkg + "." + name
+	case "functype":
+		return "functype:" + pkg + "." + name
 	}
 	return "func:" + pkg + "." + name
 }
@@ -457,6 +466,7 @@ type GhostRule struct {
 }
 
 type ContractSet struct {
+	Axioms       []*Clause
 	GhostVars    map[string][2]string // ghost component -> (type, package)
 	GhostRules   []*GhostRule
 	Guards       []*Guard
